@@ -74,6 +74,12 @@ EntriesVerdict(entries, wallet, account, op) ==
              v == IF Match(e.w, wallet) /\ Match(e.a, account) THEN ItemsVerdict(e.ops, op) ELSE "none"
          IN IF v # "none" THEN v ELSE EntriesVerdict(Tail(entries), wallet, account, op)
 
+\* The shipped configuration file gives a client's entries as a MAPPING path -> operations; the program builds the list by ranging over
+\* a map, so the order in which overlapping entries are scanned is fixed per process start but not determined by the file.
+\* Orders(cfg) is the set of configurations the program may be running with: every client's entries in some order.
+PermSeqs(seq) == {[i \in 1 .. Len(seq) |-> seq[p[i]]] : p \in Permutations(1 .. Len(seq))}
+Orders(cfg) == {f \in [DOMAIN cfg -> UNION {PermSeqs(cfg[k]) : k \in DOMAIN cfg}] : \A k \in DOMAIN cfg : f[k] \in PermSeqs(cfg[k])}
+
 \* cfg : function from client names to sequences of entries
 Decide(cfg, client, wallet, account, op) ==
     /\ client # ""
